@@ -5,9 +5,12 @@ from hypothesis import strategies as st
 
 # state-name pool: \w+ names; deliberately contains the names the library's fresh-name helpers produce
 POOL = ["q0", "q1", "q2", "q3", "q4", "q5", "q6", "q7", "p0", "p1", "s", "t", "u", "A", "b1", "z9", "start0",
-        "P1", "M1", "trap1", "q_accept", "q_initial", "q8", "q9", "0", "1", "x", "q10", "P2", "trap2"]
+        "P1", "M1", "trap1", "q_accept", "q_initial", "q8", "q9", "0", "1", "x", "q10", "P2", "trap2",
+        # names that are another name followed by an alphabet symbol / by themselves (string-keyed caches, concatenated names)
+        "q", "qa", "qb", "q00", "q01", "11", "qq"]
 SYMS = ["a", "b", "0", "1", "c"]
 EPS = ["", "ε", "_", "e"]
+EPS_NFA = EPS + ["eps", "lambda", "ea"]      # "any epsilon symbol": also multi-character ones that contain alphabet symbols
 REPS = ["dd_set", "total_dict", "dd_lambda"]
 
 
@@ -15,11 +18,17 @@ REPS = ["dd_set", "total_dict", "dd_lambda"]
 def names(draw, n, pool=POOL):
     """n distinct state names.  Mostly from the pool; one time in six consecutive numbered names that cross a digit boundary
     (q8 q9 q10 q11, s99 s100, ...): lexicographic and numeric order differ there, and fresh-name helpers count upwards."""
-    if pool is POOL and draw(st.integers(0, 5)) == 0:
-        prefix = draw(st.sampled_from(["q", "q", "s", "p", "M", "P", "trap", "q_accept"]))
-        start = draw(st.sampled_from([0, 1, 5, 8, 9, 10, 95, 99]))
+    mode = draw(st.integers(0, 7)) if pool is POOL else 9
+    if mode == 0:
+        prefix = draw(st.sampled_from(["q", "q", "s", "p", "M", "M", "P", "trap", "q_accept"]))
+        start = draw(st.sampled_from([0, 0, 1, 5, 8, 9, 10, 95, 99]))
         order = draw(st.permutations(list(range(n))))
         return ["%s%d" % (prefix, start + i) for i in order]
+    if mode == 1:
+        # p, pp, ppp, ...: concatenations of names are ambiguous (p + pp == pp + p)
+        p = draw(st.sampled_from(["1", "q", "x", "a", "0"]))
+        order = draw(st.permutations(list(range(1, n + 1))))
+        return [p * i for i in order]
     return draw(st.lists(st.sampled_from(pool), min_size=n, max_size=n, unique=True))
 
 
@@ -50,7 +59,7 @@ def dfa_specs(draw, max_states=6, min_sigma=0, max_sigma=3, sigma=None, pool=POO
 
 
 @st.composite
-def nfa_specs(draw, max_states=5, min_sigma=0, max_sigma=3, sigma=None, pool=POOL, eps_choices=EPS, min_states=1, max_trans=None):
+def nfa_specs(draw, max_states=5, min_sigma=0, max_sigma=3, sigma=None, pool=POOL, eps_choices=EPS_NFA, min_states=1, max_trans=None):
     n = draw(st.integers(min_states, max_states))
     Q = draw(names(n, pool))
     S = list(sigma) if sigma is not None else draw(alphabets(min_sigma, max_sigma))
